@@ -20,7 +20,7 @@ func mustJSON(s string) interface{} {
 // A value universe covering every JSON type, emptiness, nesting and
 // equal-but-distinct containers.
 var universeText = []string{
-	`null`, `true`, `false`, `0`, `1`, `-1`, `0.5`, `-0.5`, `2`, `1.5`, `100`, `1e21`,
+	`null`, `true`, `false`, `0`, `1`, `-1`, `0.5`, `-0.5`, `2`, `1.5`, `100`, `1e21`, `0.3`, `0.30000000000000004`, `9007199254740992`, `9007199254740994`,
 	`""`, `"a"`, `"b"`, `"ab"`, `"1"`, `"0"`, `"true"`, `"null"`, `" "`, `"é"`, `"世"`,
 	`[]`, `[1]`, `[1,2]`, `[2,1]`, `["a"]`, `["a","b"]`, `[null]`, `[[]]`, `[[1]]`, `[1,"a"]`, `[false]`,
 	`{}`, `{"a":1}`, `{"a":2}`, `{"b":1}`, `{"a":1,"b":2}`, `{"a":null}`, `{"a":[]}`, `{"a":{"b":1}}`, `{"x":null}`, `{"y":null}`,
@@ -80,6 +80,26 @@ func streamCore(seed uint64, idx int) caseT {
 		doc = universe[g.r.intn(len(universe))]
 	} else {
 		doc = topDoc(g)
+	}
+	if idx%400 == 7 {
+		// long but FLAT expressions: many members / steps, no nesting
+		n := 130 + g.r.intn(200)
+		unit := g.r.pick([]string{"[0]", "[*]", "[1:2]", "[]", "a", "@", "`1`", "'x'", "[0][0]", "(a)"})
+		var e string
+		switch g.r.intn(5) {
+		case 0:
+			e = "[" + strings.Repeat(unit+", ", n) + unit + "]"
+		case 1:
+			e = "{" + strings.Repeat("k: "+unit+", ", n) + "z: " + unit + "}"
+		case 2:
+			e = strings.Repeat(unit+" | ", n) + unit
+		case 3:
+			e = "a" + strings.Repeat(".a", n)
+		default:
+			e = "@" + strings.Repeat("[0]", n)
+		}
+		arr := []interface{}{[]interface{}{1.0, 2.0}, 3.0}
+		return caseT{lines: []string{"C " + hexField(e), "S " + hexField(e) + " " + canonOf(map[string]interface{}{"a": arr})}}
 	}
 	return exprCase(g, doc, g.expr(doc, 2+g.r.intn(4)))
 }
@@ -335,6 +355,15 @@ func streamHostile(seed uint64, idx int) caseT {
 		pat := g.r.pick([]string{"(", "!", "[", "[?", "a.", "a|", "{a:", "a||", "*.", "a[*].", "abs(", "[]", "`[`", "&", "a[0]", "a==", "not_null(a,"})
 		e := strings.Repeat(pat, n) + g.r.pick([]string{"", "a", "@", "a" + strings.Repeat(")", n), "a" + strings.Repeat("]", n)})
 		return caseT{lines: []string{"Q " + hexField(e) + " " + canonOf(doc)}}
+	case 9: // values that share structure: work must stay proportional to the expression, not to the unfolded tree
+		if g.r.chance(50) {
+			n := 26 + g.r.intn(16)
+			dup := g.r.pick([]string{"[@, @]", "{a: @, b: @}", "[@, @, `1`]"})
+			s := "@" + strings.Repeat(" | "+dup, n)
+			e := g.r.pick([]string{"(%s) == (%s)", "(%s) != (%s)", "contains([%s], %s)", "[%s][?@ == (%s)] | length(@)", "(%s) < (%s)"})
+			return caseT{lines: []string{"Q " + hexField(strings.Replace(e, "%s", s, -1)) + " " + canonOf(doc)}}
+		}
+		fallthrough
 	case 1: // big document
 		n := 2000 + g.r.intn(8000)
 		arr := make([]interface{}, n)
